@@ -110,9 +110,11 @@ Fixpoint dec_svals (fuel : nat) (n : nat) (a : list bytes) : option (list sval *
             end
   end.
 
-(* ---- trees: prefix encoding over the argument list
-        T v | S s | E name nattrs attr* nchildren child* | V name nattrs attr*
-        attr: c k v | b k | d k s | e k 0/1 | m npairs (k val)* | y nvals sval*       ---- *)
+(* ---- trees: prefix encoding over the argument list; "N x*" is a count followed by that many items
+        tree: T v | S s | E name N attr* N tree* | V name N attr* | C d | D d | R name N attr* v | J N attr* N part*
+              | I 0/1 N tree* N tree* | F N list-of-(N tree..) | W i N list-of-(N tree..) | K N tree* | H N tree*
+        part: s v | d v
+        attr: c k v | b k | d k s | e k 0/1 | m N (k val)* | y N sval* | i 0/1 N attr* N attr*            ---- *)
 Fixpoint take_pairs (n : nat) (a : list bytes) : list (bytes * aval) * list bytes :=
   match n with
   | O => ([], a)
@@ -121,25 +123,37 @@ Fixpoint take_pairs (n : nat) (a : list bytes) : list (bytes * aval) * list byte
             | _ => ([], [])
             end
   end.
-Definition dec_attr (a : list bytes) : option (attr * list bytes) :=
+Notation "'bind' x r <- e ; k" := (match e with Some (x, r) => k | None => None end) (at level 200, x name, r name, e at level 100, k at level 200).
+Fixpoint rep {A : Type} (f : list bytes -> option (A * list bytes)) (n : nat) (a : list bytes) : option (list A * list bytes) :=
+  match n with
+  | O => Some ([], a)
+  | S n' => bind x r <- f a; bind l r' <- rep f n' r; Some (x :: l, r')
+  end.
+Definition counted {A : Type} (f : list bytes -> option (A * list bytes)) (a : list bytes) : option (list A * list bytes) :=
+  match a with n :: r => rep f (unum n) r | [] => None end.
+
+Fixpoint dec_attr (fuel : nat) (a : list bytes) : option (attr * list bytes) :=
+  match fuel with
+  | O => None
+  | S f =>
   match a with
   | tg :: r =>
       if is tg "c" then match r with k :: v :: r' => Some (AConst k v, r') | _ => None end
       else if is tg "b" then match r with k :: r' => Some (ABool k, r') | _ => None end
       else if is tg "d" then match r with k :: v :: r' => Some (ADyn k v, r') | _ => None end
-      else if is tg "e" then match r with k :: v :: r' => Some (ABoolExpr k (match v with c :: _ => tb c | [] => false end), r') | _ => None end
+      else if is tg "e" then match r with k :: v :: r' => Some (ABoolExpr k (tb1 v), r') | _ => None end
       else if is tg "m" then match r with n :: r' => let '(l, rest) := take_pairs (unum n) r' in Some (ASpread l, rest) | _ => None end
-      else if is tg "y" then match r with n :: r' => match dec_svals (S (length r')) (unum n) r' with Some (l, rest) => Some (AStyle l, rest) | None => None end | _ => None end
+      else if is tg "y" then match r with n :: r' => bind l rest <- dec_svals (S (length r')) (unum n) r'; Some (AStyle l, rest) | _ => None end
+      else if is tg "i" then match r with c :: r1 => bind th r2 <- counted (dec_attr f) r1; bind el r3 <- counted (dec_attr f) r2; Some (ACond (tb1 c) th el, r3) | _ => None end
       else None
   | [] => None
+  end
   end.
-Fixpoint dec_attrs (n : nat) (a : list bytes) : option (list attr * list bytes) :=
-  match n with
-  | O => Some ([], a)
-  | S n' => match dec_attr a with
-            | Some (x, r) => match dec_attrs n' r with Some (l, r') => Some (x :: l, r') | None => None end
-            | None => None
-            end
+Definition dec_attrs (a : list bytes) : option (list attr * list bytes) := counted (dec_attr (S (length a))) a.
+Definition dec_part (a : list bytes) : option (spart * list bytes) :=
+  match a with
+  | tg :: v :: r => if is tg "s" then Some (PStatic v, r) else if is tg "d" then Some (PDyn v, r) else None
+  | _ => None
   end.
 Fixpoint dec_tree (fuel : nat) (a : list bytes) : option (tree * list bytes) :=
   match fuel with
@@ -149,29 +163,17 @@ Fixpoint dec_tree (fuel : nat) (a : list bytes) : option (tree * list bytes) :=
       | tg :: r =>
           if is tg "T" then match r with v :: r' => Some (TText v, r') | _ => None end
           else if is tg "S" then match r with v :: r' => Some (TStr v, r') | _ => None end
-          else if is tg "V" then
-            match r with
-            | n :: na :: r' => match dec_attrs (unum na) r' with Some (al, r'') => Some (TVoid n al, r'') | None => None end
-            | _ => None
-            end
-          else if is tg "E" then
-            match r with
-            | n :: na :: r' =>
-                match dec_attrs (unum na) r' with
-                | Some (al, nc :: r'') =>
-                    let kids := (fix kids (k : nat) (a : list bytes) : option (list tree * list bytes) :=
-                       match k with
-                       | O => Some ([], a)
-                       | S k' => match dec_tree f a with
-                                 | Some (c, a') => match kids k' a' with Some (l, a'') => Some (c :: l, a'') | None => None end
-                                 | None => None
-                                 end
-                       end) in
-                    match kids (unum nc) r'' with Some (ch, rest) => Some (TElem n al ch, rest) | None => None end
-                | _ => None
-                end
-            | _ => None
-            end
+          else if is tg "C" then match r with v :: r' => Some (TCmt v, r') | _ => None end
+          else if is tg "D" then match r with v :: r' => Some (TDoc v, r') | _ => None end
+          else if is tg "V" then match r with n :: r1 => bind al r2 <- dec_attrs r1; Some (TVoid n al, r2) | _ => None end
+          else if is tg "E" then match r with n :: r1 => bind al r2 <- dec_attrs r1; bind ch r3 <- counted (dec_tree f) r2; Some (TElem n al ch, r3) | _ => None end
+          else if is tg "R" then match r with n :: r1 => bind al r2 <- dec_attrs r1; match r2 with v :: r3 => Some (TRaw n al v, r3) | [] => None end | _ => None end
+          else if is tg "J" then bind al r2 <- dec_attrs r; bind ps r3 <- counted dec_part r2; Some (TScript al ps, r3)
+          else if is tg "I" then match r with c :: r1 => bind th r2 <- counted (dec_tree f) r1; bind el r3 <- counted (dec_tree f) r2; Some (TIf (tb1 c) th el, r3) | _ => None end
+          else if is tg "F" then bind its r2 <- counted (counted (dec_tree f)) r; Some (TFor its, r2)
+          else if is tg "W" then match r with i :: r1 => bind cs r2 <- counted (counted (dec_tree f)) r1; Some (TSwitch (unum i) cs, r2) | _ => None end
+          else if is tg "K" then bind b r2 <- counted (dec_tree f) r; Some (TCall b, r2)
+          else if is tg "H" then bind b r2 <- counted (dec_tree f) r; Some (TChildren b, r2)
           else None
       | [] => None
       end
